@@ -166,6 +166,10 @@ def run(report, db, tier):
     M = ConnModel(db, cg)
     S = shared.summariser(db, cg)
     writer(report, db, S, M)
+    R6 = report.rule('R01.6', 'a new connection starts unframed: _connect '
+                     'switches compression off whatever the previous '
+                     'connection negotiated')
+    shared.fresh_connection_state(report, R6, db, S, M, ('framing',))
     reader(report, db, S, M)
     isolation(report, db, cg, S, M)
     mode(report, db, cg, M)
@@ -463,8 +467,8 @@ def reader(report, db, S, M, rule_id='R01.2'):
                   'compression stage')
 
 
-def isolation(report, db, cg, S, M):
-    R = report.rule('R01.3', 'frame isolation: the stream is only asked '
+def isolation(report, db, cg, S, M, rule_id='R01.3'):
+    R = report.rule(rule_id, 'frame isolation: the stream is only asked '
                     'for the length prefix and for the remaining bytes of '
                     'this frame; decoding uses the per-frame buffer')
     from .c15 import raw_reads
